@@ -6,7 +6,7 @@ import writer_tab as wt
 
 CONFIGS_QUICK = ["F_all", "F_def"]  # every configuration whose cfg-gated code the property depends on
 CONFIGS_THOROUGH = ["F_all", "F_def"]
-TECHNIQUE = 'static analysis: must-call (escape) and operand provenance on MIR paths, literal sequences of the attribute writer, sibling table equality sync/async writer, ElementWriter order'
+TECHNIQUE = 'static analysis: must-call (escape) and operand provenance on MIR paths, literal sequences of the attribute writer, sibling table equality sync/async writer, ElementWriter order, iterator initial state'
 EXPLANATION = (
     "Escaping constructors must pass their payload through escape(): BytesText::new, both From<(&str, ..)> for Attribute "
     "impls (value escaped, key untouched); BytesCData::escaped's iterator splits at the '>' of every `]]>` so that `]]` and "
